@@ -137,7 +137,7 @@ prop("C15", "exploration", HIST_RULE + "; C15 monitor M-keypath: per wallet a ma
       {"name": "c15r", "cmd": "c15r", "shards": {"quick": 2, "thorough": 8}, "crash_is_violation": True}],
      {"quick": 3000, "thorough": 40000},
      ["output records are observed after every step (a record created and deleted inside one wallet call is not seen)"],
-     required_hist=["op:receive", "op:lock", "op:mine", "op:restart", "restore:next-path-beyond-chain", "op:coinbase-request-naming-a-confirmed-coinbase:ok"])
+     required_hist=["op:receive", "op:lock", "op:mine", "op:restart", "restore:next-path-beyond-chain", "op:coinbase-request-naming-a-confirmed-coinbase:ok", "op:coinbase-request-naming-a-mined-but-not-yet-refreshed-coinbase:ok", "restore:interrupted-scan-then-repeated:next-path-beyond-chain"])
 
 prop("C06", "fault_enumeration",
      "scenarios send (init, lock, receive, finalize, cancel), invoice (issue, process, lock, foreign finalize), late-locked send (init, receive, "
